@@ -636,6 +636,33 @@ where
     }
 }
 
+/// Largest piece a message body is read in.
+const READ_CHUNK_SIZE: usize = 64 * 1024;
+
+/// Read `len` more bytes onto the end of `buf`. The buffer grows as the data
+/// arrives, so a length announced by the peer does not by itself make us
+/// allocate that much memory.
+pub async fn read_exact_into<S>(
+    stream: &mut S,
+    buf: &mut BytesMut,
+    len: usize,
+) -> Result<(), std::io::Error>
+where
+    S: tokio::io::AsyncRead + std::marker::Unpin,
+{
+    let mut remaining = len;
+
+    while remaining > 0 {
+        let chunk = remaining.min(READ_CHUNK_SIZE);
+        let start = buf.len();
+        buf.resize(start + chunk, b'0');
+        stream.read_exact(&mut buf[start..]).await?;
+        remaining -= chunk;
+    }
+
+    Ok(())
+}
+
 /// Read a complete message from the socket.
 pub async fn read_message<S>(stream: &mut S) -> Result<BytesMut, Error>
 where
@@ -661,25 +688,21 @@ where
         }
     };
 
-    let mut bytes = BytesMut::with_capacity(len as usize + 1);
-
-    bytes.put_u8(code);
-    bytes.put_i32(len);
-
-    bytes.resize(bytes.len() + len as usize - mem::size_of::<i32>(), b'0');
-
-    let slice_start = mem::size_of::<u8>() + mem::size_of::<i32>();
-    let slice_end = slice_start + len as usize - mem::size_of::<i32>();
-
     // Avoids a panic
-    if slice_end < slice_start {
+    if len < mem::size_of::<i32>() as i32 {
         return Err(Error::SocketError(format!(
             "Error reading message from socket - Code: {:?} - Length {:?}, Error: {:?}",
             code, len, "Unexpected length value for message"
         )));
     }
 
-    match stream.read_exact(&mut bytes[slice_start..slice_end]).await {
+    let body_len = len as usize - mem::size_of::<i32>();
+    let mut bytes = BytesMut::with_capacity(body_len.min(READ_CHUNK_SIZE) + 5);
+
+    bytes.put_u8(code);
+    bytes.put_i32(len);
+
+    match read_exact_into(stream, &mut bytes, body_len).await {
         Ok(_) => (),
         Err(err) => {
             return Err(Error::SocketError(format!(
@@ -976,6 +999,11 @@ impl TryFrom<&BytesMut> for Bind {
             // In that case, param length is defined as -1
             // So if the passed parameter len is over 0
             if param_len > 0 {
+                if param_len as usize > cursor.remaining() {
+                    return Err(Error::ParseBytesError(
+                        "Bind parameter longer than the message".into(),
+                    ));
+                }
                 let mut param = BytesMut::with_capacity(param_len as usize);
                 param.resize(param_len as usize, b'0');
                 cursor.copy_to_slice(&mut param);
